@@ -68,8 +68,15 @@ Definition gnutar_format_octal (v : Z) (s : nat) : Z * list Z :=
   if v / zpow 8 s =? 0 then (0, map (fun d => ch0 + d) (digits_be 8 s v))
   else (-1, repeat ch7 s).
 
+(* gnutar.c's own format_256: a field of at most 8 bytes holds 8s-1 bits of two's complement behind the marker
+   bit; a value outside is refused (-1) - the bytes are written all the same in the C code only when accepted *)
+Definition gnutar_format_256 (v : Z) (s : nat) : Z * list Z :=
+  if (s <? 9)%nat && ((2 ^ (8 * Z.of_nat s - 2) <=? v) || (v <? - 2 ^ (8 * Z.of_nat s - 2)))
+  then (-1, [])
+  else format_256 v s.
+
 Definition gnutar_format_number (v : Z) (s maxsize : nat) : Z * list Z :=
-  if v <? zpow 8 s then gnutar_format_octal v s else format_256 v maxsize.
+  if (0 <=? v) && (v <? zpow 8 s) then gnutar_format_octal v s else gnutar_format_256 v maxsize.
 
 (* ------------------------------------------------------------------ cpio_odc.c / cpio_newc.c *)
 Definition odc_format_octal (v : Z) (digits : nat) : Z * list Z :=
